@@ -195,6 +195,22 @@ thread_local! {
 }
 
 thread_local! {
+    /// set whenever the mini-chain meets something it does not model (a query kind it cannot answer, a sub-message
+    /// with a reply, an unsupported message): whatever was observed around it proves nothing about the contracts, so
+    /// the driver discards the step's verdicts and reports the history as inconclusive
+    pub static MODEL_GAP: RefCell<Option<String>> = RefCell::new(None);
+}
+
+pub fn note_model_gap(what: String) {
+    MODEL_GAP.with(|g| {
+        let mut g = g.borrow_mut();
+        if g.is_none() {
+            *g = Some(what);
+        }
+    });
+}
+
+thread_local! {
     /// true while a monitor runs under catch_unwind (see driver): a panic there means the observed values were
     /// inconsistent (e.g. a supply that grew on a burn underflows a subtraction) and is reported as a violation
     pub static IN_MONITOR: std::cell::Cell<bool> = std::cell::Cell::new(false);
@@ -231,6 +247,10 @@ impl<'a> Querier for WQ<'a> {
         };
         self.w.query_as(&self.caller, req)
     }
+}
+
+fn validator_json(a: &str) -> serde_json::Value {
+    serde_json::json!({"address": a, "commission": "0.05", "max_commission": "0.2", "max_change_rate": "0.01"})
 }
 
 fn ok_bin<T: serde::Serialize>(t: &T) -> QuerierResult {
@@ -381,7 +401,26 @@ impl World {
                     Err(e) => SystemResult::Ok(ContractResult::Err(e)),
                 }
             }
-            other => SystemResult::Err(SystemError::UnsupportedRequest { kind: format!("{:?}", other) }),
+            QueryRequest::Wasm(WasmQuery::Raw { contract_addr, key }) => {
+                if !self.kinds.contains_key(&contract_addr) {
+                    return SystemResult::Err(SystemError::NoSuchContract { addr: contract_addr });
+                }
+                let v = self.stores.get(&contract_addr).and_then(|st| st.0.get(key.as_slice()).cloned()).unwrap_or_default();
+                SystemResult::Ok(ContractResult::Ok(Binary::from(v)))
+            }
+            QueryRequest::Staking(StakingQuery::AllValidators {}) => {
+                let vals: Vec<serde_json::Value> = crate::setup::VALIDATORS.iter().map(|v| validator_json(v)).collect();
+                SystemResult::Ok(ContractResult::Ok(Binary::from(serde_json::to_vec(&serde_json::json!({ "validators": vals })).unwrap())))
+            }
+            QueryRequest::Staking(StakingQuery::Validator { address }) => {
+                let v = if crate::setup::VALIDATORS.contains(&address.as_str()) { validator_json(&address) } else { serde_json::Value::Null };
+                SystemResult::Ok(ContractResult::Ok(Binary::from(serde_json::to_vec(&serde_json::json!({ "validator": v })).unwrap())))
+            }
+            other => {
+                // a request kind this mini-chain cannot answer: a gap of the model, not a fact about the contracts
+                note_model_gap(format!("query kind not modelled: {:?}", other).chars().take(160).collect());
+                SystemResult::Err(SystemError::UnsupportedRequest { kind: format!("{:?}", other) })
+            }
         }
     }
 
@@ -659,6 +698,7 @@ impl World {
         for sm in resp.messages {
             if sm.reply_on != ReplyOn::Never {
                 *herr = true;
+                note_model_gap("sub-message with reply_on other than Never".into());
                 return Err("router: reply_on other than Never is not modelled".into());
             }
             self.dispatch(contract, sm.msg, depth + 1, tr, herr, rec_idx)?;
